@@ -40,7 +40,17 @@ func (x *Exec) libStub(fn *ssa.Function, args []Val, site string) (Val, bool) {
 	// ---- expr-lang: uninterpreted function of the expression text.  Run returns the string
 	// "<text>", an injective image of exactly the text that was compiled.
 	case "github.com/expr-lang/expr.Compile":
-		x.stubsUsed["expr.Compile/Run (uninterpreted: result = \"<\"+text+\">\")"] = true
+		// concrete text: the real expr-lang (compiled natively by the engine); symbolic text: uninterpreted
+		if txt, ok := args[0].(StrV).concrete(); ok {
+			x.stubsUsed["expr.Compile/Run (real expr-lang, natively, on concrete text)"] = true
+			if _, err := nativeExpr(txt); err != nil {
+				if _, cerr := nativeCompile(txt); cerr != nil {
+					return TupleV{PtrV{}, x.opaqueErr()}, true
+				}
+			}
+			return TupleV{PtrV{C: &Cell{V: args[0]}}, IfaceV{}}, true
+		}
+		x.stubsUsed["expr.Compile/Run (uninterpreted on symbolic text: result = \"<\"+text+\">\")"] = true
 		return TupleV{PtrV{C: &Cell{V: args[0]}}, IfaceV{}}, true
 	case "github.com/expr-lang/expr.Run":
 		p := args[0].(PtrV)
@@ -48,12 +58,31 @@ func (x *Exec) libStub(fn *ssa.Function, args []Val, site string) (Val, bool) {
 			return TupleV{IfaceV{}, x.opaqueErr()}, true
 		}
 		txt := p.C.V.(StrV)
+		if ct, ok := txt.concrete(); ok {
+			res, err := nativeExpr(ct)
+			if err != nil {
+				return TupleV{IfaceV{}, x.opaqueErr()}, true
+			}
+			switch r := res.(type) {
+			case int:
+				return TupleV{IfaceV{T: types.Typ[types.Int], V: cbv(64, uint64(int64(r)))}, IfaceV{}}, true
+			case float64:
+				f := r
+				return TupleV{IfaceV{T: types.Typ[types.Float64], V: OpaqueV{Kind: "float", Key: "f:" + strconv.FormatFloat(f, 'g', -1, 64), F: &f}}, IfaceV{}}, true
+			case bool:
+				return TupleV{IfaceV{T: types.Typ[types.Bool], V: cbool(r)}, IfaceV{}}, true
+			case string:
+				return TupleV{IfaceV{T: types.Typ[types.String], V: cstr(r)}, IfaceV{}}, true
+			case nil:
+				return TupleV{IfaceV{}, IfaceV{}}, true
+			}
+			panic(unsupported{fmt.Sprintf("expr result of type %T", res)})
+		}
 		out := StrV{B: append(append([]BV{cbv(8, '<')}, txt.B...), cbv(8, '>')), Opaque: txt.Opaque}
 		return TupleV{IfaceV{T: types.Typ[types.String], V: out}, IfaceV{}}, true
 	// ---- go-playground/validator: verdict = uninterpreted function of (value, constraint text),
 	// except required/min/max on strings, which are modelled (length of an ASCII string)
 	case "github.com/go-playground/validator/v10.New":
-		x.stubsUsed["validator.Var/Struct (uninterpreted verdict; required/min/max on ASCII strings modelled)"] = true
 		return PtrV{C: &Cell{V: cbv(64, 0)}}, true
 	case "github.com/go-playground/validator/v10.WithRequiredStructEnabled":
 		return FuncV{Native: func(x *Exec, a []Val) Val { return nil }}, true
@@ -208,11 +237,54 @@ func (x *Exec) validatorVerdict(val IfaceV, tag StrV) Val {
 	if !ok {
 		panic(unsupported{"validator: symbolic constraint text"})
 	}
+	// fully concrete value: the real validator decides
+	var gv any
+	have := false
+	switch v := val.V.(type) {
+	case StrV:
+		if c, ok := v.concrete(); ok {
+			gv, have = c, true
+		}
+	case BV:
+		if v.Con {
+			if _, signed, _ := bvWidth(val.T); signed {
+				gv, have = sext(v), true
+			} else {
+				gv, have = v.C, true
+			}
+		}
+	case BoolV:
+		if v.Con {
+			gv, have = v.C, true
+		}
+	case OpaqueV:
+		if v.F != nil {
+			gv, have = *v.F, true
+		}
+	}
+	if have {
+		x.stubsUsed["validator.Var (real go-playground/validator, natively, on concrete values)"] = true
+		if err := nativeValidate(gv, t); err != nil {
+			if _, isPanic := err.(errPanicInValidator); isPanic {
+				panic(panicV{msg: "validator panicked on constraint " + t})
+			}
+			return x.opaqueErr()
+		}
+		return IfaceV{}
+	}
 	if sv, isStr := val.V.(StrV); isStr && !sv.Opaque {
+		// symbolic ASCII string: required / min / max / omitempty are modelled on its (concrete) length
 		violated := false
 		modelled := true
 		for _, part := range strings.Split(t, ",") {
+			if violated {
+				break
+			}
 			switch {
+			case part == "omitempty":
+				if len(sv.B) == 0 {
+					return IfaceV{}
+				}
 			case part == "required":
 				if len(sv.B) == 0 {
 					violated = true
@@ -236,6 +308,7 @@ func (x *Exec) validatorVerdict(val IfaceV, tag StrV) Val {
 			}
 		}
 		if modelled {
+			x.stubsUsed["validator.Var (required/min/max/omitempty on symbolic ASCII strings modelled)"] = true
 			if violated {
 				return x.opaqueErr()
 			}
@@ -243,6 +316,7 @@ func (x *Exec) validatorVerdict(val IfaceV, tag StrV) Val {
 		}
 	}
 	// uninterpreted: the same (value, constraint) pair always gets the same verdict on a path
+	x.stubsUsed["validator.Var (uninterpreted verdict on symbolic values)"] = true
 	key := x.showVal(val) + "|" + t
 	if x.uf == nil {
 		x.uf = map[string]BoolV{}
